@@ -33,7 +33,9 @@ def enc_block_tok(t) -> str:
 
 QLINES = ["> a", ">a", ">", "> ", ">\ta", "> \ta", ">  \tb", " > c", "   > d", "    > e", "> > f", ">> g", "> >\th", ">\t>\ti", "lazy", "  lazy", "> # h",
           "> ***", "> ```", "> ~~~", "> ```", ">     code", ">\t\tcode", "> ---", "***", "# h", "```", "", "", ">  ", ">\t", "> > ", ">>", ">x\t", "    lazy code",
-          "> - a", "> 1. b", ">\x0bv", "> \xa0", "\t> t", " \t> u", ">  \t  \tq"]
+          "> - a", "> 1. b", ">\x0bv", "> \xa0", "\t> t", " \t> u", ">  \t  \tq",
+          # continuation lines of nested quotes whose content is reached through tabs (bsCount of the enclosing quote matters)
+          "> >   \tcode", "> >\t\tcode", "> > \tx", ">>\t\ty", "> >  \t```", "> > a", "> >", ">  > \tz", "> >\t>\tw"]
 
 
 def rand_q(rng) -> str:
@@ -49,7 +51,7 @@ def tie_quote(ctx: Ctx, drv: Driver, n: int) -> None:
     rng = ctx.rng
     mds = {}
     lines, impl, meta = [], [], []
-    fixed = ["> > \n> \n\nfoo\n", "> a\nlazy\n> b\n", ">\ta\n>\n>  \tb", "> > > x\n> y\nz\n", "> ```\n> c\n```\n", "> a\n***\n> b", "> # h\n# g\n"]
+    fixed = ["> > a\n> >\n> >   \tcode\n", "> > a\n> >\n> >\t\tcode\n", "> > ```\n> >  \tx\n> > ```\n", "> > \n> \n\nfoo\n", "> a\nlazy\n> b\n", ">\ta\n>\n>  \tb", "> > > x\n> y\nz\n", "> ```\n> c\n```\n", "> a\n***\n> b", "> # h\n# g\n"]
     for i in range(n):
         k = i % 5
         if i < len(fixed):
